@@ -83,6 +83,15 @@ CHECKS = {
              'is inconclusive here: the VM does not deliver hardware data breakpoints (probed at run time).',
         note='Trusted: SDM vol. 3 17.2.4 DR7 layout in the monitor\'s decoder, PTRACE_PEEKUSER. Held on the histories explored after three fix commits.',
         ref='DESIGN.md §4 C14'),
+    'C17': dict(
+        technique='runtime monitoring: differential oracle (result sets of the live debugger vs an independent llvm-dwarfdump / nm reference) plus a reference-model monitor of the path-suffix index over random and bounded-exhaustive operation sequences',
+        text='For generated binaries with colliding and near-miss module, file and function names and generics with three instantiations, every '
+             'suffix and every near-miss (character added/dropped, partial component, extra component) of every function path and file path is '
+             'given to set_breakpoint_at_fn / set_breakpoint_at_line, and unique-token regexes to get_symbols; the selected set must equal the '
+             'functions / files / ELF symbols denoted according to the reference. The crate-private index (re-exported under feature verif) is run '
+             'against a naive list model on random sequences with duplicate paths and on all 3-path sets over a 3-letter alphabet.',
+        note='Trusted: llvm-dwarfdump DIE parent chains, nm, the 15-line legacy demangler of the monitor (unique tokens only).',
+        ref='DESIGN.md §4 C17'),
     'C06': dict(
         technique='runtime monitoring: structural comparison of the debugger\'s Value trees with the debuggee\'s own canonical self-description (reference model = safe Rust in the program)',
         text='Generated programs hold ~40 variables each (locals, statics, thread-locals, arguments) from a recursive type grammar with boundary '
